@@ -134,6 +134,28 @@ theorem pmLoop_literal (cfg : Cfg) (p s : List Nat) (fl : Flags) (hp : ∀ c ∈
         · rw [List.drop_eq_nil_iff.mpr hsl]; exact List.cons_ne_nil _ _
       simp [Res.ofBool, this]
 
+/-- A literal pattern followed in the subject by `/…`: with `PATHMATCH_NO_ANCHOR_END` it matches. -/
+theorem pmLoop_literal_dir (cfg : Cfg) (p rest : List Nat) (fl : Flags) (hf : fl.noEnd = true)
+    (hp : ∀ c ∈ p, Lit c) (pi : Nat) (hpi : pi ≤ p.length) :
+    pmLoop cfg p (p ++ C_SLASH :: rest) fl pi pi = .yes := by
+  induction hn : p.length - pi generalizing pi with
+  | zero =>
+    have : pi = p.length := by omega
+    subst this
+    have hs : rd (p ++ C_SLASH :: rest) p.length = some C_SLASH := by
+      rw [rd_of_lt (by simp)]; simp
+    rw [pmLoop_eq]; simp [rd_len, hs, hf]
+  | succ n ih =>
+    have hlt : pi < p.length := by omega
+    have hc := rd_of_lt hlt
+    obtain ⟨h0, h1, h2, h3, h4, h5, h6⟩ := hp _ (List.getElem_mem hlt)
+    obtain ⟨c1, hc1⟩ := rd_isSome (show pi + 1 ≤ p.length by omega)
+    have hs : rd (p ++ C_SLASH :: rest) pi = some p[pi] := by
+      rw [rd_of_lt (by simp; omega)]; simp [List.getElem_append_left hlt]
+    rw [pmLoop_eq]; simp only [hc, hc1, hs, h0, h1, h2, h3, h4, h5, h6, if_false, false_and, ne_eq,
+      not_true, if_false]
+    exact ih (pi + 1) (by omega) (by omega)
+
 /-! ### unanchored start -/
 
 theorem strchrSlash_none_iff {s : List Nat} (hs : NoNul s) {i : Nat} (hi : i ≤ s.length) :
